@@ -193,13 +193,15 @@ def make_broker(lab: Lab, backend_fail: Callable[[str], bool] = lambda tid: Fals
 
     class Backend(AsyncResultBackend):  # type: ignore[type-arg]
         async def set_result(self, task_id: str, result: Any) -> None:
-            lab.rec("set_result", "begin", task_id, result)
+            lab.save_seq = getattr(lab, "save_seq", 0) + 1  # type: ignore[attr-defined]
+            seq = lab.save_seq  # type: ignore[attr-defined]
+            lab.rec("set_result", "begin", task_id, result, seq)
             if backend_gate:
-                await lab.gate(f"save:{task_id}")
+                await lab.gate(f"save:{task_id}:{seq}")
             if backend_fail(task_id):
-                lab.rec("set_result", "raise", task_id)
+                lab.rec("set_result", "raise", task_id, seq)
                 raise RuntimeError("backend down")
-            lab.rec("set_result", "end", task_id)
+            lab.rec("set_result", "end", task_id, seq)
 
         async def is_result_ready(self, task_id: str) -> bool:
             return False
